@@ -14,7 +14,7 @@ def KEntry.idxs (e : KEntry) : List Nat := e.segs.filterMap Prod.snd
 def KEntry.head (e : KEntry) : Text := match e.segs with | [] => [] | s :: _ => s.1
 
 def KV.payload : KV → Payload
-  | .prims many vs => .prims many vs
+  | .prims _ many vs => .prims many vs
   | .emptyArr => .emptyArr
   | .emptyObj sub => .emptyObj sub
 
